@@ -63,6 +63,34 @@ static long kv(const std::vector<std::string>& ts, const std::string& key, long 
     return dflt;
 }
 
+// the flag set of an exec line: alias=<name> takes the library's own named constant (TbfAlgorithmUtils::TbfOperations), flags=<n> a number
+static int flagsOf(const std::vector<std::string>& ts){
+    for(const auto& t : ts){
+        if(t.rfind("alias=", 0) == 0){
+            const std::string a = t.substr(6);
+            if(a == "p2p") return TbfAlgorithmUtils::TbfP2P;
+            if(a == "p2m") return TbfAlgorithmUtils::TbfP2M;
+            if(a == "m2m") return TbfAlgorithmUtils::TbfM2M;
+            if(a == "m2l") return TbfAlgorithmUtils::TbfM2L;
+            if(a == "l2l") return TbfAlgorithmUtils::TbfL2L;
+            if(a == "l2p") return TbfAlgorithmUtils::TbfL2P;
+            if(a == "b2t") return TbfAlgorithmUtils::TbfBottomToTopStages;
+            if(a == "transfer") return TbfAlgorithmUtils::TbfTransferStages;
+            if(a == "t2b") return TbfAlgorithmUtils::TbfTopToBottomStages;
+            if(a == "near") return TbfAlgorithmUtils::TbfNearField;
+            if(a == "far") return TbfAlgorithmUtils::TbfFarField;
+            if(a == "all") return TbfAlgorithmUtils::TbfNearAndFarFields;
+        }
+    }
+    return int(kv(ts, "flags", 63));
+}
+
+// alias=default: execute() is called without a flag argument (the library's default: the whole algorithm)
+template <class AlgoClass, class TreeClass> static void execWith(AlgoClass& algo, TreeClass& tree, const std::vector<std::string>& ts){
+    for(const auto& t : ts){ if(t == "alias=default"){ algo.execute(tree); return; } }
+    algo.execute(tree, flagsOf(ts));
+}
+
 struct Case {
     long H = 3;
     std::vector<std::array<RealType, Dim>> positions;
@@ -225,7 +253,8 @@ static void byteCopyCheck(Tree& tree){
                 cp[k].first = bufs.back().get() + 8; cp[k].second = ps[k].second;
                 std::memcpy(cp[k].first, ps[k].first, ps[k].second);
             }
-            typename Tree::CellGroupClass view(cp);
+            const bool deferred = (groups % 2) == 1;     // odd groups: deferred initialisation (built without reading the memory, headers read afterwards)
+            typename Tree::CellGroupClass view(cp, !deferred); if(deferred) view.initMemoryBlockHeader();
             ++groups;
             ++values; if(view.getNbCells() != g.getNbCells() || view.getStartingSpacialIndex() != g.getStartingSpacialIndex() || view.getEndingSpacialIndex() != g.getEndingSpacialIndex()) ++bad;
             for(long c = 0 ; c < g.getNbCells() ; ++c){
@@ -245,7 +274,8 @@ static void byteCopyCheck(Tree& tree){
             cp[k].first = bufs.back().get() + 8; cp[k].second = ps[k].second;
             std::memcpy(cp[k].first, ps[k].first, ps[k].second);
         }
-        typename Tree::LeafGroupClass view(cp);
+        const bool deferred = (groups % 2) == 1;
+        typename Tree::LeafGroupClass view(cp, !deferred); if(deferred) view.initMemoryBlockHeader();
         ++groups;
         ++values; if(view.getNbLeaves() != g.getNbLeaves() || view.getNbParticles() != g.getNbParticles()) ++bad;
         for(long lf = 0 ; lf < g.getNbLeaves() ; ++lf){
@@ -399,7 +429,7 @@ int main(){
             else if(ctor == 2) algo.reset(new TbfAlgorithm<RealType, Kernel, SpaceIndex>(*cs.config));
             else if(ctor == 3){ std::unique_ptr<Kernel> k(new Kernel(*cs.config)); algo.reset(new TbfAlgorithm<RealType, Kernel, SpaceIndex>(*cs.config, *k, kv(ts, "upper", 2))); }
             else algo.reset(new TbfAlgorithm<RealType, Kernel, SpaceIndex>(*cs.config, kv(ts, "upper", 2)));
-            algo->execute(*cs.tree, int(kv(ts, "flags", 63)));
+            execWith(*algo, *cs.tree, ts);
             flushLog();
         }
 #ifdef USE_OMP
@@ -418,7 +448,7 @@ int main(){
             else algo.reset(new TbfOpenmpAlgorithm<RealType, Kernel, SpaceIndex>(*cs.config, kv(ts, "upper", 2)));
             mock_gomp_configure(mc);
             mock_gomp_clear_history();
-            algo->execute(*cs.tree, int(kv(ts, "flags", 63)));
+            execWith(*algo, *cs.tree, ts);
             long nt = 0; mock_gomp_history(&nt);
             std::cout << "T " << nt << "\n";
             flushLog();
@@ -431,7 +461,7 @@ int main(){
             {
                 std::unique_ptr<TbfSmSpecxAlgorithm<RealType, Kernel, SpaceIndex>> algo(
                     new TbfSmSpecxAlgorithm<RealType, Kernel, SpaceIndex>(*cs.config, kv(ts, "upper", 2)));
-                algo->execute(*cs.tree, int(kv(ts, "flags", 63)));
+                execWith(*algo, *cs.tree, ts);
             }
             std::cout << "T " << (mock_specx_total_run() - before) << "\n";
             flushLog();
@@ -445,7 +475,7 @@ int main(){
             {
                 std::unique_ptr<TbfSmStarpuAlgorithm<RealType, Kernel, SpaceIndex>> algo(
                     new TbfSmStarpuAlgorithm<RealType, Kernel, SpaceIndex>(*cs.config, kv(ts, "upper", 2)));
-                algo->execute(*cs.tree, int(kv(ts, "flags", 63)));
+                execWith(*algo, *cs.tree, ts);
             }
             std::cout << "T " << (mock_starpu_total_run() - before) << "\n";
             flushLog();
@@ -453,7 +483,7 @@ int main(){
 #endif
         else if(op == "exec" && ts.size() > 1 && ts[1] == "seqc"){
             std::unique_ptr<TbfAlgorithm<RealType, CKernel, SpaceIndex>> algo(new TbfAlgorithm<RealType, CKernel, SpaceIndex>(*cs.config, kv(ts, "upper", 2)));
-            algo->execute(*cs.tree, int(kv(ts, "flags", 63)));
+            execWith(*algo, *cs.tree, ts);
             printCounters(*algo, (unsigned long)kv(ts, "seed", 1));
             flushLog();
         }
@@ -462,7 +492,7 @@ int main(){
             MockConfig mc; mc.schedule = int(kv(ts, "sched", 0)); mc.seed = (unsigned long)kv(ts, "seed", 1); mc.nworkers = int(kv(ts, "workers", 1));
             mock_gomp_configure(mc);
             std::unique_ptr<TbfOpenmpAlgorithm<RealType, CKernel, SpaceIndex>> algo(new TbfOpenmpAlgorithm<RealType, CKernel, SpaceIndex>(*cs.config, kv(ts, "upper", 2)));
-            algo->execute(*cs.tree, int(kv(ts, "flags", 63)));
+            execWith(*algo, *cs.tree, ts);
             printCounters(*algo, (unsigned long)kv(ts, "seed", 1));
             flushLog();
         }
